@@ -59,16 +59,25 @@ def _v6_values(rng, n_random):
     lits = [l for l in harvest_literals() if l <= M128]
     if lits:
         vals += rng.sample(lits, min(8, len(lits)))
+    # every big constant of the source as the upper 96 bits of an address that embeds a random IPv4 value
     return vals
+
+
+def _literal_values(rng):
+    """every big constant of the source as the upper 96 bits of an address that embeds a random IPv4 value"""
+    return common.literal_prefixed(rng, 128, 32)
 
 
 def generate(rng, tier):
     mult = 1 if tier == 'quick' else 4
     cases = []
     # ---- IPv6 addresses
-    for v in _v6_values(rng, 6 * mult):
+    for v in _v6_values(rng, 6 * mult) + _literal_values(rng):
         o = ('A', 6, v)
         cases += [_case('to4', o), _case('to6', o, False), _case('to6', o, True), _case('mapped', o)]
+    for v in _literal_values(rng):
+        o = ('N', 6, v, rng.choice([96, 97, 104, 112, 120, 127, 128, rng.randrange(0, 129)]))
+        cases += [_case('to4', o), _case('to6', o, rng.random() < 0.5)]
     # ---- IPv6 networks: every prefix
     for p in range(129):
         vals = _v6_values(rng, 1)
